@@ -25,7 +25,7 @@ import (
 	"github.com/twmb/franz-go/pkg/kmsg"
 )
 
-const c28Watchdog = 60 * time.Second
+const c28Watchdog = 600 * time.Second // generous: firing is "inconclusive", and the concurrent leg deliberately starves the scheduler on a box that may be loaded
 
 type c28Proxy struct {
 	Host string
